@@ -264,6 +264,7 @@ func (x *Exec) uninterpretedCall(s *State, callee *ssa.Function, args []Value) [
 // unknownCall havocs the heap and returns unconstrained results.
 func (x *Exec) unknownCall(fr *frame, s *State, what string, callee *ssa.Function, sig *types.Signature, pos token.Pos) []Value {
 	x.C.Abstracted["call without contract (heap havoc): "+what]++
+	x.frameCheckAll(fr, s, pos, "call without contract ("+what+")")
 	pre := map[Sort]Term{}
 	for k, h := range s.Heaps {
 		pre[k] = h
@@ -299,9 +300,22 @@ func (x *Exec) applyContract(fr *frame, s *State, ct *Contract, callee *ssa.Func
 	}
 	pre := s.Clone()
 	if ct.Modifies == nil {
+		x.frameCheckAll(fr, s, pos, "call of "+ct.Key+" (contract without modifies clause)")
 		x.havocHeaps(s, nil, "call")
 		x.assumePreserved(s, pre.Heaps, callee, callee == nil)
 	} else {
+		for _, t := range x.modTargets(env, ct.Modifies) {
+			switch t.kind {
+			case "loc":
+				x.frameCheckLoc(fr, s, t.ref, t.off, t.n, pos)
+			case "obj":
+				x.frameCheckObj(fr, s, t.ref, pos, "callee's modifies obj()")
+			case "elems":
+				x.frameCheckRange(fr, s, t.ref, t.off, t.len, pos, "callee's modifies elems()")
+			case "maps":
+				x.frameCheckMap(fr, s, t.ref, pos)
+			}
+		}
 		x.havocModifies(env, s, ct.Modifies)
 	}
 	if ct.Modifies != nil {
